@@ -5,6 +5,8 @@ package c18
 import (
 	"fmt"
 
+	math "github.com/IBM/mathlib"
+
 	"verif/harness"
 )
 
@@ -15,3 +17,7 @@ const buildPrefix = "psown-"
 func verifySubsetBLS(k cfg, shares map[uint16][]byte, c *harness.C, seed int64) (string, error) {
 	return "not-linked", fmt.Errorf("BLS not linked into the PS-only build")
 }
+
+func blsDeal(n, t int) ([]*math.Zr, []*math.Zr) { return nil, nil }
+
+func blsAggregateAtScale(c *harness.C, n, t int, coeffs, shares []*math.Zr) error { return nil }
